@@ -2,8 +2,8 @@ package props
 
 import (
 	"fmt"
-	"sort"
 	"go/types"
+	"sort"
 	"strings"
 
 	"golang.org/x/tools/go/ssa"
